@@ -32,6 +32,7 @@ Definition do_uop (v : variant) (now : Z) (o : uop) (w : net) : net * list kc :=
   | UUdpClose s => udp_close cx s w
   | UUdpCancel s => let (w, c0) := udp_abort_recv s w in let (w, c1) := udp_abort_send v s w in (w, c0 ++ c1)
   | UUdpWaitWrite s h => udp_wait_write cx s h w
+  | UTcpMove s => (w, [])        (* the binding, the forwarder, the channel and the handlers follow the socket *)
   | UUdpDestroy s => let (w, c) := udp_close cx s w in (set_udp w s (udp_fresh (u_node (get_udp w s)) now), c)
   | UUdpSendTo s bufs dst =>
       let '(err, n, w, c) := udp_send_to cx s bufs dst w in (w, c ++ [ret_line 2 s [err; n]])
